@@ -34,6 +34,8 @@ REPO = "/repo"
 B6 = os.path.join(REPO, "src/diagonal.works/b6")
 BUILD = os.path.join(ROOT, ".build")
 WORK = os.path.join(ROOT, ".work")
+if os.path.isdir("/dev/shm") and os.access("/dev/shm", os.W_OK):
+    WORK = "/dev/shm/verif-work"  # transient per-run scratch (write-ahead cases, stats); removed after each run
 
 sys.path.insert(0, ROOT)
 from checks import CHECKS, HOOK_COMMITS  # noqa: E402
